@@ -160,6 +160,61 @@ def gen_io_sequence(rng):
     return 'k%d ' % steps + case_line((pc, 2, rng.randrange(100), 0, sorted(cells.items()), [rng.randrange(256)], files))
 
 
+def enc_op(opc, v):
+    """prefix encoding of an operand (python, independent of hexasm)"""
+    v &= 0xffffffff
+    sv = v - (1 << 32) if v >= 1 << 31 else v
+    if 0 <= sv < 16:
+        return bytes([opc << 4 | sv])
+    if sv >= 0:
+        nibs = []
+        x = sv
+        while x:
+            nibs.append(x & 15)
+            x >>= 4
+        return bytes([0xE0 | n for n in reversed(nibs[1:])] + [opc << 4 | nibs[0]])
+    n = 2
+    while sv < -(16 ** n):
+        n += 1
+    ns = [(sv >> (4 * i)) & 15 for i in range(n)]
+    return bytes([0xF0 | ns[-1]] + [0xE0 | x for x in reversed(ns[1:-1])] + [opc << 4 | ns[0]])
+
+
+IO_STREAMS = [0, 5, 255, 256, 300, 511, 512, 0x700, 0x900, 0x1100, 0xA00, 0xffffffff, 0x80000100, 0x7fffff00]
+
+
+def gen_io_program(rng, mixed):
+    """a program that writes to and reads from console and file streams in a generated order, echoes every byte it
+    reads to the console and exits with the last one.  mixed=False keeps every file index in one direction (the ISA's
+    independent input/output files and the device agree); mixed=True uses indices in both directions (device model)."""
+    sp = 150000
+    code = bytearray()
+    nops = rng.randint(2, 14)
+    direction = {}
+    ops = []
+    for _ in range(nops):
+        stream = rng.choice(IO_STREAMS)
+        w = rng.random() < 0.5
+        sint = stream - (1 << 32) if stream >= 1 << 31 else stream
+        if sint >= 256:
+            k = (sint >> 8) & 7
+            if not mixed:
+                w = direction.setdefault(k, w)
+        ops.append(('w', rng.randrange(256), stream) if w else ('r', stream))
+    for op in ops:
+        if op[0] == 'w':
+            code += enc_op(3, op[1]) + enc_op(1, 1) + enc_op(8, 2) + enc_op(3, op[2]) + enc_op(8, 3) + enc_op(3, 1) + bytes([0xD3])
+        else:
+            code += enc_op(3, op[1]) + enc_op(1, 1) + enc_op(8, 2) + enc_op(3, 2) + bytes([0xD3])
+            code += enc_op(0, sp + 1) + enc_op(1, 1) + enc_op(8, 2) + enc_op(3, 0) + enc_op(8, 3) + enc_op(3, 1) + bytes([0xD3])   # echo to the console
+    code += enc_op(0, sp + 1) + enc_op(1, 1) + enc_op(8, 2) + enc_op(3, 0) + bytes([0xD3])
+    b = bytearray([0x97, 0, 0, 0]) + sp.to_bytes(4, 'little') + code
+    while len(b) % 4:
+        b.append(0)
+    files = {k: bytes(rng.randrange(256) for _ in range(rng.choice([0, 1, 2, 5]))) for k in range(8) if rng.random() < 0.7}
+    return (len(b) // 4).to_bytes(4, 'little') + bytes(b), files, ops
+
+
 def case_line(c):
     pc, a, b, o, cells, cons, files = c
     t = [pc, a, b, o, len(cells)]
@@ -188,10 +243,12 @@ def strip_read(s):
 def main():
     ck = Check('C02')
     ck.cov['trusted_base'] = ['Coq 8.16.1 kernel + VM (vm_compute)', 'Isa.v as a reading of hexb.pdf (spec)',
-                              'SimModel.v hand model of hexsim.hpp, tied by this correspondence run',
+                              'SimModel.v hand model of hexsim.hpp and SimIO.v hand model of hexsimio.hpp (one stream per file index, bound at first use), both tied by this correspondence run',
+                              'Loader.v hand model of Processor::load (the image the whole runs start from)',
                               'ExtrOcamlBasic extraction + OCaml 4.13 driver ocaml/c02drv.ml', 'harness/sim_harness.cpp, g++ 12']
     ck.assumptions = ['effective word addresses < 200000 (C02 quantifier); out-of-range cases are generated, counted, not judged',
-                      'SimModel models tracing-off runs; -t is C12/C15']
+                      'SimModel models tracing-off runs; -t is C12/C15',
+                      'the ISA gives every file index independent input and output files; hexsim binds an index to one direction at first use: the whole-run sentence is proved for the device on runs that use each index in one direction (C02_io_single_direction_partial), refuted otherwise (C02_io_mixed_refuted); mixed-direction programs are compared with the device model']
     ok = ck.proofs()
     ck.log('proofs', 'ok' if ok else 'BROKEN')
     hv, log = vlib.ocaml_build()
@@ -368,6 +425,53 @@ def main():
                                  {'binary': kb, 'input': list(inp), 'isa': isa, 'impl': real}, tags={'kind': 'run'})
                 elif runs % 17 == 1:
                     ck.sample({'binary': os.path.basename(b), 'input_len': len(inp), 'isa_end': isa[0]})
+    # ---- I/O programs against the device model (SimIO.v) and, where every index keeps one direction, the ISA as well
+    hexsim_exe, lg = vlib.repo_tool('hexsim')
+    nio = 0
+    if hexsim_exe is None:
+        ck.broken.append('hexsim does not build from the working tree: ' + lg[-300:])
+    elif not ck.replay_arg:
+        for k in range(60 if not ck.thorough() else 3000):
+            mixed = k % 2 == 1
+            binary, files, ops = gen_io_program(rng, mixed)
+            dd = os.path.join(d, 'io%d' % k)
+            os.makedirs(dd)
+            open(os.path.join(dd, 'p.bin'), 'wb').write(binary)
+            for fk, content in files.items():
+                open(os.path.join(dd, 'simin%d' % fk), 'wb').write(content)
+            cons = bytes(rng.randrange(256) for _ in range(rng.choice([0, 1, 3, 8])))
+            rcm, om, em = run3([hv, 'c02iorun', 'p.bin', '100000'], cwd=dd, input=cons, timeout=120)
+            mod = om.decode().strip().split('\n')
+            if rcm != 0 or not mod[0].startswith('END exit'):
+                ck.broken.append('the device-model run of a generated I/O program did not reach its exit: %s' % (om + em).decode('latin1')[-200:])
+                continue
+            want_rc = int(dict(x.split('=') for x in mod[0].split()[2:])['rc']) & 0xff
+            want_out = bytes(int(x) for x in mod[1].split()[2:])
+            want_files = {int(l.split()[1]): bytes(int(x) for x in l.split()[2:]) for l in mod if l.startswith('FILE ')}
+            if not mixed:
+                rci, oi, ei = run3([hv, 'c02run', 'p.bin', '100000'], cwd=dd, input=cons, timeout=120)
+                isa = oi.decode().strip().split('\n')
+                isa_files = {int(l.split()[1]): bytes(int(x) for x in l.split()[2:]) for l in isa if l.startswith('FILE ')}
+                isa_rc = int(dict(x.split('=') for x in isa[0].split()[2:])['rc']) & 0xff
+                if isa_rc != want_rc or bytes(int(x) for x in isa[2].split()[2:]) != want_out or isa_files != want_files:
+                    ck.broken.append('SimIO device model and the ISA disagree on a single-direction I/O program although io_agree is proved: ops %s' % ops)
+            rcr, orr, er = run3([hexsim_exe, 'p.bin'], cwd=dd, input=cons, timeout=60)
+            got_files = {}
+            for fk in range(8):
+                p = os.path.join(dd, 'simout%d' % fk)
+                if os.path.exists(p) and os.path.getsize(p):
+                    got_files[fk] = open(p, 'rb').read()
+            nio += 1
+            ck.cov['evaluations'] += 1
+            if rcr != want_rc or orr != want_out or got_files != want_files:
+                ck.violation('hexsim on an I/O program (%s directions per file index): status %d console %r files %s; the %s gives status %d console %r files %s'
+                             % ('mixed' if mixed else 'single', rcr, orr[:30], {a: b[:12] for a, b in got_files.items()}, 'device model' if mixed else 'ISA and the device model',
+                                want_rc, want_out[:30], {a: b[:12] for a, b in want_files.items()}),
+                             {'binary_hex': binary.hex(), 'simin': {str(a): list(b) for a, b in files.items()}, 'console': list(cons), 'ops': ops, 'mixed': mixed},
+                             tags={'kind': 'io-program', 'mixed': mixed})
+            elif k % 13 == 0:
+                ck.sample({'io_ops': [list(o) for o in ops][:6], 'mixed': mixed, 'status': rcr, 'console_out': list(orr[:8]), 'files_written': sorted(got_files)})
+    ck.cov['io_programs'] = nio
     ck.log('whole runs: %d, differing %d' % (runs, rundiff))
     ck.cov['distinct_nontrivial'] = len(distinct)
     ck.cov['rule'] = ('planted state = (pc, areg, breg, oreg, memory cells, console/file input) for each of the 256 instruction bytes; '
